@@ -153,23 +153,30 @@ def gen_points(rng, cls, nb, nq):
             off = rng.choice([0.0, 0.0, 1e-7, 1e-4, 0.01, 1.0])
             Q.append(_clip(-la + off, lo + 180 if lo <= 0 else lo - 180))
     elif cls == "grid":
-        la0, lo0 = rng.randint(-60, 40), rng.randint(-170, 120)
-        step = rng.choice([1, 2, 5])
+        # sorted, regular (SEVIRI-like); integral degrees where the grid fits into the domain
         side = max(1, int(math.ceil(math.sqrt(nb))))
+        step = rng.choice([1, 2, 5])
+        if side * step > 100:
+            step = 100.0 / side
+        la0, lo0 = rng.randint(-60, -45), rng.randint(-170, 60)
         B = [(float(la0 + step * (i // side)), float(lo0 + step * (i % side))) for i in range(nb)]
         Q = [(float(la0 + step * rng.randint(0, side)), float(lo0 + step * rng.randint(0, side)))
              if rng.random() < 0.5 else
              (la0 + step * rng.uniform(0, side), lo0 + step * rng.uniform(0, side))
              for _ in range(nq)]
     elif cls == "line":
-        lo0 = rng.uniform(-170, 100)
         step = rng.choice([0.001, 0.01, 0.25, 1.0])
+        if nb * step > 300:
+            step = 300.0 / nb
+        lo0 = rng.uniform(-175, 175 - nb * step)
         B = [(0.0, lo0 + step * i) for i in range(nb)]
         Q = [(0.0, lo0 + step * rng.randint(0, nb)) for _ in range(nq)]
     else:
         raise ValueError(cls)
     if cls not in ("grid", "line"):
         rng.shuffle(B)
+    for la, lo in B + Q:
+        assert -90 <= la <= 90 and -180 <= lo <= 180, (cls, la, lo)
     return [p[0] for p in B], [p[1] for p in B], [p[0] for p in Q], [p[1] for p in Q]
 
 
